@@ -219,6 +219,6 @@ def eval_history(case):
 def parts(tier):
     t = tier == 'thorough'
     return [
-        Part('history', eval_history, strategy=lambda: strategy(60), examples=100000 if t else 6000),
-        Part('long', eval_history, strategy=lambda: strategy(220), examples=10000 if t else 400),
+        Part('history', eval_history, strategy=lambda: strategy(60), examples=500000 if t else 6000),
+        Part('long', eval_history, strategy=lambda: strategy(220), examples=50000 if t else 400),
     ]
